@@ -84,6 +84,16 @@ func gen(tier string, seed int64) []mon.Case {
 			}
 		}
 	}
+	// the device half-closes the session: EOF (with / without exit status), no channel close
+	for rep := 0; rep < ureps; rep++ {
+		for _, t := range []string{"standard-shell", "standard-netconf"} {
+			for _, how := range []string{"peer-half-close", "peer-half-close-status"} {
+				for _, rs := range []int{81, 8192} {
+					add(Desc{Kind: "unblock", T: t, How: how, ReadSize: rs})
+				}
+			}
+		}
+	}
 	// re-open cycles on one Transport object
 	for rep := 0; rep < ureps; rep++ {
 		for _, t := range []string{"system", "system-ssh", "standard-shell", "telnet"} {
